@@ -91,6 +91,15 @@ def _sites(tree, modname, fn_prefixes, table_prefixes):
                     sites.append(('kwswap', path, (kws[i].arg, kws[i + 1].arg)))
             if isinstance(node, ast.If) and node.orelse == [] and all(isinstance(s, (ast.Raise, ast.Assign, ast.Expr, ast.AugAssign, ast.Return)) for s in node.body):
                 sites.append(('noif', path, None))
+            if isinstance(node, ast.FunctionDef) and modname in ('encoder', 'writers', 'utils', 'helpers'):
+                sites.append(('globalwrite', path, None))
+                sites.append(('memoize', path, None))
+            if isinstance(node, ast.ListComp) and isinstance(node.elt, ast.Subscript) and isinstance(node.elt.slice, ast.Slice) \
+                    and node.elt.slice.lower is None and node.elt.slice.upper is None and len(node.generators) == 1:
+                sites.append(('aliasrows', path, None))
+            if isinstance(node, ast.Call) and isinstance(node.func, ast.Name) and node.func.id in ('bytearray', 'list', 'dict') and len(node.args) == 1 \
+                    and isinstance(node.args[0], ast.Name) and not node.keywords:
+                sites.append(('nocopy', path, None))
         walk(node, path, act, q)
     walk(tree, [], False, '')
     return sites
@@ -137,12 +146,25 @@ def apply_mutation(tree, site):
         _set(t, path, ast.copy_location(ast.Pass(), node))
     elif kind == 'noif':
         _set(t, path, ast.copy_location(ast.Pass(), node))
+    elif kind == 'globalwrite':
+        stmt = ast.parse("consts.MICRO_VERSION_MAPPING['__seen__'] = 1" if True else '').body[0]
+        node.body.insert(1 if (node.body and isinstance(node.body[0], ast.Expr) and isinstance(node.body[0].value, ast.Constant)) else 0, stmt)
+    elif kind == 'memoize':
+        node.decorator_list.insert(0, ast.parse('functools.lru_cache(maxsize=64)', mode='eval').body)
+    elif kind == 'aliasrows':
+        _set(t, path, ast.copy_location(ast.Call(func=ast.Name(id='list', ctx=ast.Load()), args=[node.generators[0].iter], keywords=[]), node))
+    elif kind == 'nocopy':
+        _set(t, path, node.args[0])
     elif kind == 'kwswap':
         a, b = extra
         ka = [k for k in node.keywords if k.arg == a][0]
         kb = [k for k in node.keywords if k.arg == b][0]
         ka.value = copy.deepcopy(kb.value)
-    after = ast.unparse(_get(t, path))[:70] if kind not in ('not',) else ast.unparse(_get(t, path))[:70]
+    if kind in ('globalwrite', 'memoize'):
+        before = f'def {node.name}(...)'
+        after = {'globalwrite': "+ consts.MICRO_VERSION_MAPPING['__seen__'] = 1", 'memoize': '+ @functools.lru_cache(maxsize=64)'}[kind]
+    else:
+        after = ast.unparse(_get(t, path))[:70]
     ast.fix_missing_locations(t)
     return t, f'{kind} @ line {line}: `{before}` -> `{after}`'
 
@@ -391,7 +413,13 @@ def audit(forest, prop, results, jobs=8, limit=None):
         tasks = rnd.sample(tasks, limit)
     sources = forest.sources
     seeded = []
+    expected = {}
     for d in sorted(glob.glob(os.path.join(core.VERIF, 'seeded', f'{prop}-*'))):
+        try:
+            meta = json.load(open(os.path.join(d, 'meta.json'), encoding='utf-8'))
+            expected[os.path.basename(d)] = meta.get('static_check', {}).get('verdict', 'VIOLATION')
+        except (OSError, ValueError):
+            expected[os.path.basename(d)] = 'VIOLATION'
         try:
             patch = open(os.path.join(d, 'patch.diff'), encoding='utf-8').read()
             seeded.append((prop, os.path.basename(d), apply_patch_text(sources, patch)))
@@ -419,8 +447,8 @@ def audit(forest, prop, results, jobs=8, limit=None):
         seeded_res = []
         for fu in fut_s:
             name, viol, unk = fu.result()
-            seeded_res.append({'variant': name, 'reported_by': viol, 'analysis_error_in': unk})
-            if not viol:
+            seeded_res.append({'variant': name, 'reported_by': viol, 'analysis_error_in': unk, 'recorded_verdict': expected.get(name)})
+            if not viol and expected.get(name) == 'VIOLATION':
                 unknown_msgs.append(f'seeded variant {name} is no longer reported as a violation (positive control lost)')
         for a in seeded:
             if a[2] is None:
